@@ -212,7 +212,7 @@ func vC10GextTerm(c *Conf, pre bool) string {
 	}
 	pd := &c.PathDefaults
 	pdCreds := pd.PublishUser != nil || pd.PublishPass != nil || pd.PublishIPs != nil || pd.ReadUser != nil || pd.ReadPass != nil || pd.ReadIPs != nil
-	usersCustom := pre && c.AuthInternalUsers != nil && !reflect.DeepEqual(c.AuthInternalUsers, defaultAuthInternalUsers)
+	usersCustom := pre && c.AuthInternalUsers != nil && !reflect.DeepEqual(c.AuthInternalUsers, copyDefaultAuthInternalUsers())
 	xa := cqApp("XA", vC10OptStr(c.ExternalAuthenticationURL), cqZ(method), cqBytes(c.AuthHTTPAddress), cqBool(pdCreds),
 		cqBool(usersCustom), vC10UsersTerm(c.AuthInternalUsers), cqBytes(c.AuthJWTJWKS), cqBytes(c.AuthJWTClaimKey))
 	optT := "None"
@@ -300,8 +300,22 @@ func vC10ConfDesc(c *Conf) map[string]any {
 		ps[name] = map[string]any{"source": p.Source, "sourceOnDemand": p.SourceOnDemand, "regexp": p.Regexp != nil,
 			"recordPath": p.RecordPath, "segment": int64(p.RecordSegmentDuration), "deleteAfter": int64(p.RecordDeleteAfter),
 			"camID": p.RPICameraCamID, "secondary": p.RPICameraSecondary, "tracks": fmt.Sprint(p.AlwaysAvailableTracks)}
+		if p.Source == "rpiCamera" {
+			ps[name].(map[string]any)["rpi"] = fmt.Sprint(p.RPICameraWidth, p.RPICameraHeight, p.RPICameraCodec, p.RPICameraExposure, p.RPICameraAWB,
+				len(p.RPICameraAWBGains), p.RPICameraDenoise, p.RPICameraMetering, p.RPICameraAfMode, p.RPICameraAfRange, p.RPICameraAfSpeed,
+				p.RPICameraH264Profile, p.RPICameraH264Level)
+		}
 	}
 	d["paths"] = ps
+	var us []string
+	for _, u := range c.AuthInternalUsers {
+		us = append(us, string(u.User)+":"+string(u.Pass))
+	}
+	d["authMethod"], d["users"] = string(c.AuthMethod), us
+	d["listeners"] = map[string]any{"api": []any{c.API, c.APIAddress}, "metrics": []any{c.Metrics, c.MetricsAddress}, "pprof": []any{c.PPROF, c.PPROFAddress},
+		"playback": []any{c.Playback, c.PlaybackAddress}, "rtsp": []any{c.RTSP, string(c.RTSPEncryption), c.RTSPAddress, c.RTSPSAddress, fmt.Sprint(c.RTSPAuthMethods)},
+		"rtmp": []any{c.RTMP, c.RTMPAddress}, "hls": []any{c.HLS, c.HLSAddress}, "webrtc": []any{c.WebRTC, c.WebRTCAddress, fmt.Sprint(c.WebRTCICEServers2)},
+		"moq": []any{c.MoQ, c.MoQQUICAddress}}
 	return d
 }
 
@@ -760,6 +774,238 @@ func vC10CmpGen(r *vRand) *vGenConf {
 	return g
 }
 
+// ---- the one-parameter sweep: every modelled check gets documents that differ from an accepted one in one parameter --
+
+type vC10SweepRow struct {
+	key  string
+	vals []string
+	ctx  map[string]string // other parameters of the same scope that make the check live
+}
+
+var vC10Hash = "'sha256:j1tsRqDEw9xvq/D7/9tMx6Jh/jMhk3UfjwIB2f1zgMo='"
+
+var vC10SweepTop = []vC10SweepRow{
+	{"readTimeout", []string{"10s", "0s", "-1s"}, nil}, {"writeTimeout", []string{"1ns", "0s", "-3h"}, nil},
+	{"writeQueueSize", []string{"1024", "0", "-4", "3", "1", "4611686018427387904"}, nil}, {"readBufferCount", []string{"256", "100", "0"}, nil},
+	{"udpMaxPayloadSize", []string{"1472", "1473", "0"}, nil},
+	{"authMethod", []string{"internal", "http", "jwt"}, nil},
+	{"authHTTPAddress", []string{"http://auth.example/x", "https://auth.example/x", "''", "ftp://auth.example", "auth.example"}, map[string]string{"authMethod": "http"}},
+	{"externalAuthenticationURL", []string{"http://old.example/auth", "https://old.example/a", "''", "old.example"}, nil},
+	{"authJWTJWKS", []string{"http://jwks.example/k", "https://jwks.example/k", "''", "file:///k"}, map[string]string{"authMethod": "jwt"}},
+	{"authJWTClaimKey", []string{"perms", "''"}, map[string]string{"authMethod": "jwt", "authJWTJWKS": "http://jwks.example/k"}},
+	{"authInternalUsers", []string{"[{user: any, permissions: [{action: publish}]}]", "[{user: '', pass: x}]", "[{user: any, pass: secret, permissions: [{action: read}]}]",
+		"[{user: admin, pass: pw, ips: ['10.0.0.0/8'], permissions: [{action: api}]}]", "[]",
+		"[{user: " + vC10Hash + ", pass: " + vC10Hash + ", permissions: [{action: publish, path: cam}]}]"}, nil},
+	{"authInternalUsers", []string{"[{user: u, pass: " + vC10Hash + "}]", "[{user: " + vC10Hash + ", pass: p}]", "[{user: u, pass: p}]",
+		"[{user: u, pass: 'argon2:$argon2id$v=19$m=4096,t=3,p=1$MTIzNDU2Nzg$Ux/LWeTgJQPyfMMJo1myR64+o8rALHoPmlE1i/TR+58'}]"}, map[string]string{"rtspAuthMethods": "[basic, digest]"}},
+	{"rtspAuthMethods", []string{"[basic]", "[]", "[basic, digest]", "[digest]"}, nil},
+	{"rtspAuthMethods", []string{"[basic, digest]", "[digest]", "[basic]"}, map[string]string{"authMethod": "http", "authHTTPAddress": "http://auth.example/x"}},
+	{"authMethods", []string{"[digest]", "[basic]", "[]"}, nil},
+	{"authMethods", []string{"[digest]", "[basic]"}, map[string]string{"authMethod": "jwt", "authJWTJWKS": "http://jwks.example/k"}},
+	{"apiAddress", []string{"':9997'", "''"}, map[string]string{"api": "yes"}}, {"apiAddress", []string{"''"}, nil}, {"apiAllowOrigin", []string{"'https://a.example'", "'*'"}, nil},
+	{"metricsAddress", []string{"':9998'", "''"}, map[string]string{"metrics": "yes"}}, {"metricsAllowOrigin", []string{"'https://m.example'"}, nil},
+	{"pprofAddress", []string{"':9999'", "''"}, map[string]string{"pprof": "yes"}}, {"pprofAllowOrigin", []string{"'https://p.example'"}, nil},
+	{"playbackAddress", []string{"':9996'", "''"}, map[string]string{"playback": "yes", "pathDefaults": "{recordPath: './rec/%path/%Y-%m-%d_%H-%M-%S-%f'}"}},
+	{"playbackAllowOrigin", []string{"'https://pb.example'"}, nil},
+	{"rtsp", []string{"yes", "no"}, map[string]string{"rtspAddress": "''"}}, {"rtspDisable", []string{"yes", "no"}, map[string]string{"rtspAddress": "''"}},
+	{"rtspEncryption", []string{"'no'", "optional", "strict"}, nil}, {"encryption", []string{"'no'", "optional", "strict"}, map[string]string{"rtspsAddress": "''"}},
+	{"rtspTransports", []string{"[udp, multicast, tcp]", "[tcp]", "[udp]", "[multicast]", "[]"}, map[string]string{"rtpAddress": "''", "multicastIPRange": "''"}},
+	{"protocols", []string{"[tcp]", "[udp, tcp]", "[multicast]"}, map[string]string{"rtcpAddress": "''"}},
+	{"serverCert", []string{"old.crt"}, nil}, {"serverKey", []string{"old.key"}, nil},
+	{"rtmpAddress", []string{"':1935'", "''"}, nil}, {"rtmpDisable", []string{"yes", "no"}, map[string]string{"rtmpAddress": "''"}}, {"rtmp", []string{"no"}, map[string]string{"rtmpAddress": "''"}},
+	{"hlsAddress", []string{"':8888'", "''"}, nil}, {"hlsDisable", []string{"yes", "no"}, map[string]string{"hlsAddress": "''"}}, {"hlsAllowOrigin", []string{"'https://h.example'"}, nil},
+	{"hlsCDNSecret", []string{"abcDEF123", "'with space'", "'ok!$()*+.;<=>[]^_-{}@#&'", "'a/b'", "''"}, nil},
+	{"webrtcAddress", []string{"':8889'", "''"}, nil}, {"webrtcDisable", []string{"yes", "no"}, map[string]string{"webrtcAddress": "''"}}, {"webrtcAllowOrigin", []string{"'https://w.example'"}, nil},
+	{"webrtcLocalUDPAddress", []string{"':8189'", "''"}, map[string]string{"webrtcLocalTCPAddress": "''"}},
+	{"webrtcLocalTCPAddress", []string{"':8189'", "''"}, map[string]string{"webrtcLocalUDPAddress": "''", "webrtcIPsFromInterfaces": "no"}},
+	{"webrtcICEServers2", []string{"[{url: 'stun:stun.example:19302'}]", "[]", "[{url: 'turn:t.example:3478', username: u, password: p}]", "[{url: 'turns:t.example:5349'}]",
+		"[{url: 'http://bad.example'}]", "[{url: ''}]", "[{url: 'stun:a'}, {url: 'bogus'}]"}, map[string]string{"webrtcLocalUDPAddress": "''", "webrtcLocalTCPAddress": "''"}},
+	{"webrtcICEServers", []string{"['stun:stun.example:19302']", "['turn:user:pass:host.example:3478']", "['a:b:c:d:e']", "['turn:user:pass:host.example']", "['']",
+		"[':::::']", "['stun:x', 'turns:u:p:h.example:5349']", "[]", "['::::']"}, nil},
+	{"webrtcIPsFromInterfaces", []string{"yes", "no"}, nil}, {"webrtcAdditionalHosts", []string{"[host.example]", "[]"}, map[string]string{"webrtcIPsFromInterfaces": "no"}},
+	{"webrtcICEHostNAT1To1IPs", []string{"['192.0.2.1']", "[]"}, map[string]string{"webrtcIPsFromInterfaces": "no"}},
+	{"webrtcICEUDPMuxAddress", []string{"':8190'", "''"}, map[string]string{"webrtcLocalTCPAddress": "''"}}, {"webrtcICETCPMuxAddress", []string{"':8190'", "''"}, map[string]string{"webrtcLocalUDPAddress": "''"}},
+	{"moqQUICAddress", []string{"':4443'", "''"}, map[string]string{"moq": "yes"}}, {"moqHTTPS2Address", []string{"':4444'"}, nil}, {"moqHTTPS3Address", []string{"':4445'"}, nil},
+	{"record", []string{"yes", "no"}, nil}, {"recordPath", []string{"'/old/%path/%Y-%m-%d_%H-%M-%S-%f'", "'/old/%Y'", "'/old/%path/%s'"}, nil},
+	{"recordFormat", []string{"fmp4", "mpegts"}, nil}, {"recordPartDuration", []string{"2s"}, nil},
+	{"recordSegmentDuration", []string{"30m", "2d"}, nil}, {"recordDeleteAfter", []string{"1d", "1s", "0s"}, nil},
+}
+
+// the same with rtspEncryption: optional, where both groups of RTSP listener checks are live
+var vC10SweepRTSPAddr = []string{"rtspAddress", "rtspsAddress", "rtpAddress", "rtcpAddress", "srtpAddress", "srtcpAddress", "multicastIPRange",
+	"multicastRTPPort", "multicastRTCPPort", "multicastSRTPPort", "multicastSRTCPPort"}
+
+var vC10SweepPath = map[string][]vC10SweepRow{
+	"publisher": {
+		{"srtPublishPassphrase", []string{"abcdefghij12", "abc", strings.Repeat("x", 80), strings.Repeat("y", 79), "abcdefghij"}, nil},
+		{"srtReadPassphrase", []string{"abcdefghij", "abc", strings.Repeat("x", 80)}, nil},
+		{"sourceOnDemand", []string{"yes", "no"}, nil}, {"sourceRedirect", []string{"/stray"}, nil},
+		{"runOnInit", []string{"echo x"}, nil}, {"runOnDemand", []string{"echo x"}, nil}, {"runOnUnDemand", []string{"echo x"}, nil},
+		{"recordPath", []string{"'./rec/%path/%Y-%m-%d_%H-%M-%S-%f'", "'/r/%path/%s'", "'/r/%path/%s-%f'", "'/r/%Y-%m-%d_%H-%M-%S-%f'", "'/r/%path/%Y-%m-%d'",
+			"'/r/%path/%Y-%m-%d_%H-%M-%S'", "''", "'%pat/%s'", "'/r/%path/%Y-%m-%d_%H-%M-%f'"}, nil},
+		{"recordSegmentDuration", []string{"1h", "25h", "24h", "2d"}, nil}, {"recordDeleteAfter", []string{"0s", "1d", "30m", "1s"}, nil},
+		{"disablePublisherOverride", []string{"yes", "no"}, nil}, {"overridePublisher", []string{"no"}, map[string]string{"disablePublisherOverride": "no"}},
+		{"runOnReady", []string{"echo r"}, map[string]string{"runOnAvailable": "echo a"}}, {"runOnReadyRestart", []string{"yes", "no"}, nil}, {"runOnNotReady", []string{"echo n"}, nil},
+		{"fallback", []string{"/other", "'rtsp://fb.example/x'", "'::'", "/../x"}, nil},
+		{"forward", []string{"[{dest: 'rtsp://f.example/x'}]", "[{dest: ''}]", "[{dest: 'ftp://f.example'}]"}, nil},
+		{"publishUser", []string{"pu", "''", "any", vC10Hash}, map[string]string{"publishPass": "pp"}},
+		{"publishPass", []string{"pp", "''", vC10Hash}, nil}, {"publishPass", []string{"pp", vC10Hash}, map[string]string{"publishUser": "pu"}},
+		{"readUser", []string{"ru", "''", vC10Hash}, map[string]string{"readPass": vC10Hash}}, {"readPass", []string{"rp", "''"}, nil},
+		{"publishIPs", []string{"[]", "['192.0.2.0/24']"}, nil}, {"readIPs", []string{"[]", "['198.51.100.7/32', '::1/128']"}, nil},
+		{"alwaysAvailableTracks", []string{"[{codec: H264}]", "[]", "[{codec: MPEG4Audio, sampleRate: 48000, channelCount: 2}]", "[{codec: MPEG4Audio}]"}, map[string]string{"alwaysAvailable": "yes"}},
+		{"alwaysAvailableFile", []string{"/nonexistent/file.mp4", "''"}, map[string]string{"alwaysAvailable": "yes"}},
+		{"alwaysAvailableFile", []string{"/nonexistent/file.mp4"}, map[string]string{"alwaysAvailable": "yes", "alwaysAvailableTracks": "[{codec: H264}]"}},
+		{"useAbsoluteTimestamp", []string{"yes"}, map[string]string{"alwaysAvailable": "yes", "alwaysAvailableTracks": "[{codec: H264}]"}},
+		{"runOnDemand", []string{"echo x"}, map[string]string{"alwaysAvailable": "yes", "alwaysAvailableTracks": "[{codec: H264}]"}},
+	},
+	"rtsp": {
+		{"source", []string{"'rtsp://ok.example/s'", "'rtsps://ok.example/s'", "'rtsp+http://ok.example/s'", "'rtsps+ws://ok.example/s'", "'rtsp://'", "'rtsp://user@h.example/x'", "'rtsp://u:p@h.example/x'"}, nil},
+		{"sourceProtocol", []string{"tcp", "udp", "multicast", "automatic"}, map[string]string{"rtspTransport": "udp"}}, {"sourceAnyPortEnable", []string{"yes", "no"}, nil},
+		{"rtspUDPSourcePortRange", []string{"[10000, 20000]", "[10000]", "[]", "[1, 2, 3]"}, nil},
+		{"sourceOnDemand", []string{"yes", "no"}, nil}, {"runOnDemand", []string{"echo x"}, nil}, {"srtPublishPassphrase", []string{"abcdefghij12"}, nil},
+		{"alwaysAvailable", []string{"yes"}, map[string]string{"sourceOnDemand": "yes", "alwaysAvailableTracks": "[{codec: H264}]"}},
+	},
+	"static": {
+		{"source", []string{"'rtmp://r.example/app/key'", "'rtmps://r.example/app'", "'http://h.example/i.m3u8'", "'https://h.example/i.m3u8'", "'udp://238.0.0.1:1234'", "'udp://nohostport'",
+			"'udp+mpegts://0.0.0.0:5000'", "'udp+mpegts://x'", "'unix+mpegts:///tmp/s.sock'", "'udp+rtp://0.0.0.0:5004'", "'unix+rtp:///tmp/r.sock'", "'srt://s.example:8890?streamid=read:x'",
+			"'moqt://m.example/x'", "'whep://w.example/x/whep'", "'wheps://w.example/x/whep'", "'bogus://x'", "''", "'rtmp://user@h.example/x'", "'srt://'", "publisherx", "'redirect '"}, nil},
+		{"source", []string{"'udp+rtp://0.0.0.0:5004'", "'unix+rtp:///tmp/r.sock'", "'udp+rtp://nohostport'", "'udp+rtp://'", "'udp://0.0.0.0:5004'"}, map[string]string{"rtpSDP": "'v=0'"}},
+		{"rtspUDPSourcePortRange", []string{"[10000]"}, map[string]string{"source": "'rtmp://r.example/app/key'"}},
+		{"sourceProtocol", []string{"tcp"}, map[string]string{"source": "'rtmp://r.example/app/key'"}},
+	},
+	"redirect": {
+		{"sourceRedirect", []string{"'rtsp://e.example/x'", "/other", "/../x", "''", "'::'"}, map[string]string{"source": "redirect"}},
+		{"source", []string{"redirect"}, nil},
+	},
+	"rpi": {
+		{"rpiCameraWidth", []string{"640", "0", "2048", "2040", "1001", "1920"}, nil}, {"rpiCameraHeight", []string{"480", "0", "2048", "1080", "1001", "2047"}, nil},
+		{"rpiCameraWidth", []string{"640", "2048", "2040", "1001", "4096"}, map[string]string{"rpiCameraCodec": "mjpeg", "rpiCameraHeight": "480"}},
+		{"rpiCameraHeight", []string{"480", "2048", "1001", "2047", "1080"}, map[string]string{"rpiCameraCodec": "mjpeg", "rpiCameraWidth": "640"}},
+		{"rpiCameraCodec", []string{"auto", "hardwareH264", "softwareH264", "mjpeg", "vp8", "''"}, nil},
+		{"rpiCameraExposure", []string{"normal", "short", "long", "custom", "sport", "''"}, nil},
+		{"rpiCameraAWB", []string{"auto", "incandescent", "tungsten", "fluorescent", "indoor", "daylight", "cloudy", "custom", "sunny"}, nil},
+		{"rpiCameraAWBGains", []string{"[1.5, 2.0]", "[1.0]", "[]", "[1, 2, 3]"}, nil},
+		{"rpiCameraDenoise", []string{"'off'", "cdn_off", "cdn_fast", "cdn_hq", "auto"}, nil}, {"rpiCameraMetering", []string{"centre", "spot", "matrix", "custom", "center"}, nil},
+		{"rpiCameraAfMode", []string{"auto", "manual", "continuous", "single"}, nil}, {"rpiCameraAfRange", []string{"normal", "macro", "full", "far"}, nil},
+		{"rpiCameraAfSpeed", []string{"normal", "fast", "slow"}, nil},
+		{"rpiCameraProfile", []string{"baseline", "main", "high", "extended"}, map[string]string{"rpiCameraHardwareH264Profile": "main"}},
+		{"rpiCameraLevel", []string{"'4.0'", "'4.1'", "'4.2'", "'5.0'"}, map[string]string{"rpiCameraHardwareH264Level": "'4.0'"}},
+		{"rpiCameraHardwareH264Profile", []string{"baseline", "main", "high", "auto"}, nil}, {"rpiCameraHardwareH264Level", []string{"'4.0'", "'4.1'", "'4.2'", "'3.1'"}, nil},
+		{"rpiCameraSoftwareH264Profile", []string{"baseline", "main", "high", "constrained"}, nil}, {"rpiCameraSoftwareH264Level", []string{"'4.0'", "'4.1'", "'4.2'", "'4'"}, nil},
+		{"rpiCameraH264Profile", []string{"auto", "baseline", "main", "high", "high10"}, nil}, {"rpiCameraH264Level", []string{"'4.0'", "'4.1'", "'4.2'", "'4.3'"}, nil},
+		{"rpiCameraJPEGQuality", []string{"55", "0"}, map[string]string{"rpiCameraMJPEGQuality": "70"}},
+		{"sourceOnDemand", []string{"yes"}, nil}, {"rpiCameraSecondary", []string{"yes"}, nil},
+	},
+}
+
+// vC10SweepDocs lists the sweep documents (deterministic; independent of the seed).
+func vC10SweepDocs() []*vGenConf {
+	var docs []*vGenConf
+	mk := func() *vGenConf {
+		return &vGenConf{Top: map[string]string{}, Defaults: map[string]string{}, Paths: map[string]map[string]string{}}
+	}
+	for _, row := range vC10SweepTop {
+		for _, v := range row.vals {
+			g := mk()
+			for k, x := range row.ctx {
+				g.Top[k] = x
+			}
+			g.Top[row.key] = v
+			g.Paths["cam"] = map[string]string{}
+			docs = append(docs, g)
+		}
+	}
+	for _, enc := range []string{"optional", "strict", "'no'"} {
+		for _, k := range vC10SweepRTSPAddr {
+			g := mk()
+			g.Top["rtspEncryption"] = enc
+			g.Top["rtspTransports"] = "[udp, multicast, tcp]"
+			if strings.HasSuffix(k, "Port") {
+				g.Top[k] = "0"
+			} else {
+				g.Top[k] = "''"
+			}
+			docs = append(docs, g)
+		}
+	}
+	bases := map[string]map[string]string{"publisher": {}, "rtsp": {"source": "'rtsp://ok.example/s'"}, "static": {}, "redirect": {}, "rpi": {"source": "rpiCamera"}}
+	for _, kind := range []string{"publisher", "rtsp", "static", "redirect", "rpi"} {
+		for _, row := range vC10SweepPath[kind] {
+			for _, v := range row.vals {
+				for _, name := range []string{"cam", "~^live_(.+)$"} {
+					if name != "cam" && !(kind == "static" || row.key == "runOnInit" || row.key == "sourceOnDemand" || row.key == "alwaysAvailableTracks") {
+						continue
+					}
+					g := mk()
+					p := map[string]string{}
+					for k, x := range bases[kind] {
+						p[k] = x
+					}
+					for k, x := range row.ctx {
+						p[k] = x
+					}
+					p[row.key] = v
+					if name != "cam" && kind == "static" && row.ctx == nil {
+						p["sourceOnDemand"] = "yes"
+					}
+					g.Paths[name] = p
+					docs = append(docs, g)
+				}
+			}
+		}
+	}
+	// the same rpiCamera parameters on a secondary stream (MJPEG dimension rule with codec auto), camera pairs, names
+	for _, sec := range []map[string]string{{}, {"rpiCameraWidth": "2048"}, {"rpiCameraHeight": "1001"}, {"rpiCameraWidth": "640", "rpiCameraHeight": "480"},
+		{"rpiCameraCodec": "hardwareH264", "rpiCameraWidth": "4096"}, {"rpiCameraCamID": "1"}} {
+		g := mk()
+		g.Paths["rpi"] = map[string]string{"source": "rpiCamera"}
+		p := map[string]string{"source": "rpiCamera", "rpiCameraSecondary": "yes"}
+		for k, x := range sec {
+			p[k] = x
+		}
+		g.Paths["rpi2"] = p
+		docs = append(docs, g)
+	}
+	for _, name := range vC10CmpNames {
+		g := mk()
+		g.Paths[name] = map[string]string{}
+		docs = append(docs, g)
+	}
+	// checks over several paths / several parameters
+	rpi := func(extra ...string) map[string]string {
+		p := map[string]string{"source": "rpiCamera"}
+		for i := 0; i+1 < len(extra); i += 2 {
+			p[extra[i]] = extra[i+1]
+		}
+		return p
+	}
+	for _, ps := range []map[string]map[string]string{
+		{"all": {}, "all_others": {}}, {"all_others": {}, "~^.*$": {}}, {"all": {}, "~^.*$x": {}},
+		{"a": rpi(), "b": rpi()}, {"a": rpi(), "b": rpi("rpiCameraCamID", "1")},
+		{"a": rpi(), "b": rpi("rpiCameraSecondary", "yes"), "c": rpi("rpiCameraSecondary", "yes")},
+		{"a": rpi(), "b": rpi("rpiCameraSecondary", "yes"), "c": rpi("rpiCameraCamID", "1"), "d": rpi("rpiCameraSecondary", "yes", "rpiCameraCamID", "1")},
+		{"b": rpi(), "a": rpi("rpiCameraSecondary", "yes"), "c": rpi()},
+	} {
+		g := mk()
+		g.Paths = ps
+		docs = append(docs, g)
+	}
+	for _, users := range []string{"[{user: admin, pass: pw, permissions: [{action: publish}]}]", "[]"} {
+		g := mk()
+		g.Top["authInternalUsers"] = users
+		g.Paths["cam"] = map[string]string{"readUser": "ru", "readPass": "rp"}
+		docs = append(docs, g)
+	}
+	for _, dflt := range []map[string]string{{"publishPass": "dp"}, {"readUser": "du", "readPass": "dp"}, {"publishIPs": "['192.0.2.0/24']"}, {"runOnReady": "echo d"}} {
+		g := mk()
+		g.Defaults = dflt
+		g.Paths["cam"] = map[string]string{}
+		g.Paths["cam2"] = map[string]string{"publishUser": "pu", "publishPass": "pp"}
+		docs = append(docs, g)
+	}
+	return docs
+}
+
 func vC10CmpCase(out *vOut, dir string, g *vGenConf) {
 	y := []byte(g.YAML())
 	fp := filepath.Join(dir, "c.yml")
@@ -951,6 +1197,11 @@ func TestVerifC10(t *testing.T) {
 	}
 	loadCase("corpus", base, nil, nil)
 	loadCase("corpus", []byte("paths:\n  cam:\n"), vC10Env{"MTX_PATHS_CAM_SOURCE": "rtsp://cam.example/x"}, nil)
+
+	// 4b. one-parameter sweep of the modelled checks (compared with the model)
+	for _, g := range vC10SweepDocs() {
+		vC10CmpCase(out, dir, g)
+	}
 
 	// 5. generated streams
 	for out.n < n {
